@@ -413,7 +413,7 @@ def enum_rules(ctx, item):
                 if len(ex) == 1 and ex[0]['expr'][0] == 'bin' and ex[0]['expr'][1] == 'Eq':
                     a, b = strip(ex[0]['expr'][2]), strip(ex[0]['expr'][3])
                     okd = {a[0], b[0]} == {'arg', 'upvar'}
-        ctx.ob(['C08'], 'R-TMPL', 'enum|default-marker', okd and 'upvar0' in dlab,
+        ctx.ob(['C08', 'C13'], 'R-TMPL', 'enum|default-marker', okd and 'upvar0' in dlab,
                '#[default] is put on the variant whose enumerate index equals default_index: %s' % dlab[:100], where)
         vec = [h for h in item.fl.holes if h[0] == int(vi) and h[1][0] == 'vec']
         okdv = False
